@@ -132,6 +132,17 @@ func VerifyFunc(w *World, key string, c *Contract) (rep *FuncReport) {
 			panic(&Unsupported{Msg: "contract of " + key + " uses unknown lemma " + u})
 		}
 	}
+	// monitor discipline (syntactic): `opt monitor m.l` -- the body starts with m.l.Lock() (or
+	// RLock) immediately followed by the matching deferred Unlock, so the whole body is one
+	// critical section of that mutex
+	if mon := strings.TrimSpace(c.Opts["monitor"]); mon != "" {
+		goal := TFalse
+		if monitorBracketed(fd, mon) {
+			goal = TTrue
+		}
+		in.obls = append(in.obls, &Obligation{Name: key + "#monitor", Func: key, Kind: "monitor", Pos: w.Fset.Position(fd.Pos()),
+			Hyps: nil, Goal: goal, Text: "the whole body runs under " + mon + " (Lock; defer Unlock as the first two statements)"})
+	}
 	// vacuity: requires satisfiable (expected sat)
 	in.obls = append(in.obls, &Obligation{Name: key + "#pre-sat", Func: key, Kind: "presat", Pos: w.Fset.Position(fd.Pos()),
 		Hyps: append([]Term(nil), st.hyps...), Goal: TFalse, Expect: "sat", Text: "requires is satisfiable"})
@@ -483,3 +494,32 @@ func (f *Frame) staticRetOrd(pos token.Pos) int {
 func bigZero() *big.Int { return new(big.Int) }
 
 var _ = ast.Unparen
+
+// monitorBracketed: the first two statements of fd are <mu>.Lock()/RLock() and defer <mu>.Unlock()/RUnlock().
+func monitorBracketed(fd *ast.FuncDecl, mu string) bool {
+	if fd.Body == nil || len(fd.Body.List) < 2 {
+		return false
+	}
+	callOn := func(e ast.Expr, names ...string) bool {
+		call, ok := e.(*ast.CallExpr)
+		if !ok || len(call.Args) != 0 {
+			return false
+		}
+		sel, ok := call.Fun.(*ast.SelectorExpr)
+		if !ok || types.ExprString(sel.X) != mu {
+			return false
+		}
+		for _, n := range names {
+			if sel.Sel.Name == n {
+				return true
+			}
+		}
+		return false
+	}
+	es, ok := fd.Body.List[0].(*ast.ExprStmt)
+	if !ok || !callOn(es.X, "Lock", "RLock") {
+		return false
+	}
+	ds, ok := fd.Body.List[1].(*ast.DeferStmt)
+	return ok && callOn(ds.Call, "Unlock", "RUnlock")
+}
